@@ -155,7 +155,7 @@ func evaluate(prop string, sc *Scn, x *vrt.Sched, choices []int, res *scnResult,
 		for _, k := range keys {
 			r := x.Races[k]
 			report(Finding{Prop: "C15", Key: "race " + k, Detail: fmt.Sprintf("unordered conflicting accesses to %s: %s || %s", r.Loc, r.A, r.B)})
-			for _, p := range strings.Fields(raceOwner(r.Loc)) {
+			for _, p := range strings.Fields(raceOwner(r.Loc) + " " + raceOwnerBySite(r.A+" "+r.B)) {
 				report(Finding{Prop: p, Key: "race " + k, Detail: fmt.Sprintf("unordered conflicting accesses to %s: %s || %s", r.Loc, r.A, r.B)})
 			}
 		}
@@ -163,6 +163,14 @@ func evaluate(prop string, sc *Scn, x *vrt.Sched, choices []int, res *scnResult,
 }
 
 // raceOwner: a SCHED check other than C15 fails only on races on the mechanism its property names.
+// raceOwnerBySite: package-level state reached from the control decoder belongs to C14.
+func raceOwnerBySite(sites string) string {
+	if strings.Contains(sites, "gldap.decodeControl") || strings.Contains(sites, "gldap.(*Control") {
+		return "C14"
+	}
+	return ""
+}
+
 func raceOwner(loc string) string {
 	switch {
 	case strings.HasPrefix(loc, "bufio.Writer"), strings.HasPrefix(loc, "ResponseWriter."):
